@@ -1429,6 +1429,10 @@ class ArrowSerializableDataclass:
 
         # Unwrap Optional type
         inner_type, _ = _is_optional_type(field_type)
+        # Look through NewType exactly as _infer_arrow_type does, so a
+        # NewType over an Enum / dataclass is converted back like its supertype
+        while hasattr(inner_type, "__supertype__"):
+            inner_type = getattr(inner_type, "__supertype__")  # noqa: B009
 
         # Handle pa.Schema reconstruction from bytes
         if inner_type is pa.Schema:
